@@ -11,6 +11,8 @@
 //   C15_FOLLOWUP=1    re-entrant completion callbacks: one that issues a follow-up lookup, one that cancels another
 //                     lookup that is still pending (never itself); 5-tick advances
 //   C15_CONFIG=1      DnsRequest(loop) + setDnsIPAddresses(); op setServers(k), k in 0..2, also while lookups are pending
+//   C15_NOSEEN=1      the model-only fields "class of the last ignored datagram" are left out of the state key (fixpoint lanes); in all other
+//                     lanes a history that ends in an ignored datagram is a new state, so what follows it (timeout, cancel, sibling) is explored
 //   C15_IDWRAP=1      (off by default, see check.py) the id counter starts at 0xFFFD so that the 16-bit id wraps; op burst = 65536
 //                     further lookups that are cancelled at once (walks the id counter once around)
 #include "hist/hist.h"
@@ -74,7 +76,7 @@ static Bytes make_reply(uint16_t id, int dom, int look, int server, int kind) {
 
 struct Look { uint16_t id = 0; int dom = 0; int state = 0 /*0 pending 1 done 2 cancelled 3 refused (no servers configured)*/; int calls = 0; int status = -1; std::vector<Addr> addrs; bool failed[kMaxServers] = {false, false, false}; int nfail = 0; int age = 0;
   int flavour = 0 /*1: its callback issues one more lookup; 2: its callback cancels another lookup that is still pending*/; int nq = 0 /*servers queried*/; bool cancelled_in_cb = false;
-  std::vector<std::string> names; /*cname_vec of the last result*/ int seen = 0 /*model only: class of the last ignored datagram it received while pending: 1 non-reply 2 undecodable*/; };
+  std::vector<std::string> names; /*cname_vec of the last result*/ int seen = 0 /*model only: class of the last ignored datagram it received while pending: 1 non-reply 2 undecodable 3 undecodable behind complete records*/; };
 static long g_dup_counted = 0, g_wrongq_accepted = 0, g_wrongq_ignored = 0, g_timeouts = 0, g_allfail = 0, g_success = 0, g_ignored_ok = 0;
 static long g_silent = 0;
 static long g_undecodable = 0, g_not_listening = 0, g_cb_cancels = 0, g_cb_followups = 0, g_refused = 0, g_srvchg_completed = 0, g_srvchg_waiting = 0, g_rx_nothing = 0;
@@ -96,8 +98,9 @@ int main(int argc, char **argv) {
   static const bool via_socket = getenv("C15_VIA_SOCKET") != nullptr;
   static const bool cfg_lane = getenv("C15_CONFIG") != nullptr;
   static const bool idwrap = getenv("C15_IDWRAP") != nullptr;
+  static const bool noseen = getenv("C15_NOSEEN") != nullptr;      // key without the "class of the last ignored datagram" fields (lanes that are run to their fixpoint)
   hx::install_crash_reporter("dns-lookup-crash");
-  hx::Explorer<Op> ex; ex.name = "lookups-" + engine + "-" + std::to_string(kMaxLookups) + "lookups-" + std::to_string(kServers) + "servers" + (via_socket ? "-via-socket-event" : "") + (lane ? "-reentrant-callbacks" : "") + (cfg_lane ? "-setservers" : "") + (idwrap ? "-idwrap" : "");
+  hx::Explorer<Op> ex; ex.name = "lookups-" + engine + "-" + std::to_string(kMaxLookups) + "lookups-" + std::to_string(kServers) + "servers" + (via_socket ? "-via-socket-event" : "") + (lane ? "-reentrant-callbacks" : "") + (cfg_lane ? "-setservers" : "") + (noseen ? "" : "-after-ignored") + (idwrap ? "-idwrap" : "");
   ex.deadline_s = hx::deadline_from_env(600);
   if (getenv("C15_DEADLINE_MONO")) ex.deadline_s = atof(getenv("C15_DEADLINE_MONO"));   // absolute CLOCK_MONOTONIC seconds (set by check.py)
   ex.show = [](const Op &o) { char b[96];
@@ -216,7 +219,7 @@ int main(int argc, char **argv) {
           bool got = deliver(dg, o.s, o.r); sync_silent();
           if (got) { bool pend = false; for (auto &l : L) pend = pend || l.state == 0;
             if (unk && pend) nobody = o.r == UNKNOWN_ID ? 1 : 2;
-            if (!unk && L[i].state == 0 && (o.r == QUERY || undecodable(o.r))) L[i].seen = o.r == QUERY ? 1 : 2; }
+            if (!unk && L[i].state == 0 && (o.r == QUERY || undecodable(o.r))) L[i].seen = o.r == QUERY ? 1 : (o.r == CNAME_A_CUT || o.r == OVERSIZE) ? 3 : 2; }
           if (either >= 0) { Look &e = L[either]; bool chg = o.r == SERVFAIL && cur != e.nq;
             if (e.calls == want_calls[either] + 1) { want_calls[either]++; if (chg) g_srvchg_completed++; else if (o.r == SERVFAIL) g_dup_counted++; else g_wrongq_accepted++; } else { want_status[either] = -2; if (chg) g_srvchg_waiting++; if (o.r == OK_WRONG_QUESTION) g_wrongq_ignored++; } }
         } break;
@@ -238,7 +241,7 @@ int main(int argc, char **argv) {
       for (size_t i = 0; i < L.size(); i++) {
         Look &l = L[i];
         if (l.calls != want_calls[i]) {
-          const char *what = l.calls > want_calls[i] ? (l.state == 2 ? "dns-lookup-callback-invoked-after-cancel" : l.state == 1 ? "dns-lookup-callback-invoked-more-than-once" : o.k == TICK ? "dns-lookup-timeout-reported-early" : "dns-lookup-callback-invoked-for-a-datagram-that-must-be-ignored")
+          const char *what = l.calls > want_calls[i] ? (l.state == 2 ? "dns-lookup-callback-invoked-after-cancel" : l.state == 1 ? "dns-lookup-callback-invoked-more-than-once" : o.k == REQ || o.k == SENDFAIL || o.k == SETSRV || o.k == CANCEL ? "dns-lookup-callback-invoked-by-a-call-that-completes-nothing" : o.k == TICK ? "dns-lookup-timeout-reported-early" : "dns-lookup-callback-invoked-for-a-datagram-that-must-be-ignored")
                                                        : (o.k == TICK ? "dns-lookup-timeout-not-reported-after-5-ticks" : o.r == SERVFAIL ? "dns-lookup-not-completed-although-all-servers-failed" : "dns-lookup-callback-missing-for-acceptable-reply");
           fail(std::string(what) + " lookup#" + std::to_string(i) + " calls=" + std::to_string(l.calls) + " expected=" + std::to_string(want_calls[i]) + (l.flavour == 3 ? " (lookup with an empty callback: 'calls' is its completion as seen through isRunning)" : "")); break; }
         if (want_status[i] != -2 && l.state == 0 && l.flavour == 3) { l.state = 1; l.calls = 0; g_silent++; }     // completed silently, as the model says; nothing to compare
@@ -265,13 +268,13 @@ int main(int argc, char **argv) {
     c += "|u" + std::to_string((int)dns->udp_.sp_socket_ev_->isEnabled()) + "|id" + std::to_string(VF_GET(req_id_alloc_, *dns, 0u));
     c += "|k" + std::to_string(VF_SIZE(dns_ip_vec_, *dns, (size_t)0)) + "/" + std::to_string(cur) + "|x" + std::to_string(g_tx_fail_mask);
     bool anyp = false; for (auto &l : L) anyp = anyp || l.state == 0;
-    c += "|M:"; for (auto &l : L) { c += std::to_string(l.state) + std::to_string(l.calls) + (l.state == 0 ? std::to_string((int)l.failed[0]) + std::to_string((int)l.failed[1]) + std::to_string((int)l.failed[2]) + std::to_string(std::min(l.nfail, l.nq)) + std::to_string(l.age) + "q" + std::to_string(l.nq) + "s" + std::to_string(l.seen) : std::string("")) + "d" + std::to_string(l.dom) + (l.flavour && (l.calls == 0 && l.state != 1) ? (l.flavour == 1 ? "F" : l.flavour == 2 ? "X" : "E") : "") + ","; }    // a pending re-entrant-callback obligation is part of the state
-    if (anyp) c += "|n" + std::to_string(nobody);      // histories AFTER an ignored datagram are explored too: which class of ignored datagram came last is (model-only) state
+    c += "|M:"; for (auto &l : L) { c += std::to_string(l.state) + std::to_string(l.calls) + (l.state == 0 ? std::to_string((int)l.failed[0]) + std::to_string((int)l.failed[1]) + std::to_string((int)l.failed[2]) + std::to_string(std::min(l.nfail, l.nq)) + std::to_string(l.age) + "q" + std::to_string(l.nq) + "s" + std::to_string(noseen ? 0 : l.seen) : std::string("")) + "d" + std::to_string(l.dom) + (l.flavour && (l.calls == 0 && l.state != 1) ? (l.flavour == 1 ? "F" : l.flavour == 2 ? "X" : "E") : "") + ","; }    // a pending re-entrant-callback obligation is part of the state
+    if (anyp && !noseen) c += "|n" + std::to_string(nobody);      // histories AFTER an ignored datagram are explored too: which class of ignored datagram came last is (model-only) state
     if (vf_any_missing()) { c += "|H:"; for (size_t i = h.size() > 3 ? h.size() - 3 : 0; i < h.size(); i++) c += ex.show(h[i]) + ";"; }
     // destruction must not invoke anything
     std::vector<int> calls; for (auto &l : L) calls.push_back(l.calls);
     delete dns; g_tx_fail_mask = 0; loop->runNext([] {}); loop->runLoop(event::Loop::Mode::kOnce);
-    for (int k = 0; k < 6; k++) { g_mono_ms += 1000; loop->runNext([] {}); loop->runLoop(event::Loop::Mode::kOnce); }     // nothing of it may still be registered with the loop: a whole timeout period passes
+    for (int k = 0; k < 2; k++) { g_mono_ms += k ? 5000 : 1000; loop->runNext([] {}); loop->runLoop(event::Loop::Mode::kOnce); }     // nothing of it may still be registered with the loop: +1 s (next timer tick) and +6 s (a whole timeout period) pass
     delete loop;
     for (size_t i = 0; i < L.size(); i++) if (L[i].calls != calls[i]) fail("dns-lookup-callback-invoked-during-destruction");
     g_keep_sent = false;
